@@ -92,8 +92,9 @@ Example cex_type_seq_headers :
   lexical_headers_of LTypeScript cex_ty_arrow = [mkHeader 0 0 3; mkHeader 4 4 10].
 Proof. vm_compute. repeat split; reflexivity. Qed.
 
-(* why a plain token does not re-enable brace groups in a parameter list (binner, bi_plain keeps the flag):
-   a brace group after a ")" at the same depth can complete a header shape that started inside the list *)
+(* why brace groups in a parameter list are restricted (the state machine of binner: no brace group right after a
+   group or after `(…) =>`, none at all after `(…) :`): a brace group can complete a header shape that started inside
+   the list *)
 Definition cex_param_arrow : list token :=   (* function f ( cb = ( a ) => { } ) { } *)
   toks [(0,s_function);(1,[102]);(2,[40]);(1,[99;98]);(3,s_eq);(2,[40]);(1,[97]);(2,[41]);(2,s_arrow);(2,[123]);(2,[125]);(2,[41]);(2,[123]);(2,[125])]%Z.
 Definition cex_param_rettype : list token := (* const f = ( a : g ( x ) : T , { b } ) => { } *)
